@@ -7,14 +7,22 @@ CASE_FN = {"ing": "ing_case", "vs": "vs_case", "vsr": "vsr_case", "ts": "ts_case
 SHARD = 6000
 
 TRUSTED = [
-    "Rocq 8.16.1 kernel incl. vm_compute (no native_compute); no axioms (Print Assumptions: closed)",
-    "hand-written nil-shape model coq/Shapes/Model.v of internal/k8s/validation.go, configuration.go (AddOrUpdateIngress, rebuildHosts, "
-    "convertIngressToVSR, buildMinionConfigs), controller.go (createIngressEx, createMergeableIngresses) and of the CRD validators, tied by the "
-    "correspondence harness harness/overlay/internal/verifh/c17, which materialises EVERY shape of the model's enumeration and compares "
-    "Ok/Rejected/Panic stage by stage with the real code (real Configuration, real Configurator over the real templates, FakeManager)",
-    "the transcription of the API server's built-in validation of Ingress (exactly one of service/resource per backend, pathType required, "
-    "absolute path for Exact/Prefix, at least one path per http block, a default backend or a rule) into Model.ing_admissible and into the generators",
-    "k8s.io/apiextensions-apiserver structural-schema validator applied to config/crd/bases/*.yaml decides admissibility of generated custom resources",
+    "Rocq 8.16.1 kernel incl. vm_compute (no native_compute); no axioms (Print Assumptions: closed); primitive 63-bit integers are used only in "
+    "Shapes/Cases.v to decode shape codes (never in a theorem)",
+    "hand-written nil-shape model coq/Shapes/Model.v of internal/k8s/validation.go (validateIngress and callees), configuration.go (AddOrUpdateIngress, "
+    "rebuildHosts, convertIngressToVSR, buildMinionConfigs, DeleteIngress), controller.go (createIngressEx, createMergeableIngresses), "
+    "configs/ingress.go (generateNginxCfg walk, Servers[0]), and of the CRD validators + the generator's dereference sites "
+    "(virtualserver.go, transportserver.go, policy.go); tied by the correspondence harness harness/overlay/internal/verifh/c17, which materialises EVERY "
+    "shape of the model's enumerations and compares Ok/Rejected/Panic stage by stage with the real code (real Configuration, real Configurator over the "
+    "real templates, real LocalSecretStore, FakeManager, listers = plain cache stores)",
+    "the transcription of the API server's built-in validation of Ingress (exactly one of service/resource per backend, pathType required, absolute path "
+    "for Exact/Prefix, at least one path per http block, a default backend or a rule) into Model.ing_admissible and into the generators; of Service, "
+    "EndpointSlice and Secret into the random generators",
+    "CRD admissibility: k8s.io/apiextensions-apiserver cannot be compiled offline (github.com/google/cel-go is not in the module cache and importing an "
+    "indirect dependency would rewrite /repo/go.mod), so config/crd/bases/k8s.nginx.org_*.yaml is read with k8s.io/apimachinery/pkg/util/yaml on every "
+    "run and interpreted by a ~120-line validator in the harness (type, properties, items, additionalProperties, required, pattern, enum, minimum, "
+    "maximum, nullable; null object properties pruned; any other keyword aborts the run)",
+    "the fixtures of the harness: hosts, service/endpoint-slice/pod/secret objects, and the four (Ingress) / two or three (CRD) prior states",
 ]
 
 
@@ -29,6 +37,35 @@ def pack(obs):
     if len(obs) > 90 or any(ch not in "0123" for ch in obs):
         raise C.TieBroken("digit string not packable: %r" % obs)
     return " ".join(out)
+
+
+# Optional (nil-able) fields of the custom-resource specs, as reflection over pkg/apis/configuration/v1 lists them,
+# and where each is exercised: "shape" = varied by the exhaustive shape spaces of Shapes/Model.v, "random" = only by
+# the random stream.  A field the code has and this table lacks (or the reverse) means the model is stale.
+INVENTORY = {f: "shape" for f in """APIKey.SuppliedIn Action.Proxy Action.Redirect Action.Return ActionProxy.RequestHeaders
+ ActionProxy.ResponseHeaders EgressMTLS.VerifyDepth ErrorPage.Redirect ErrorPage.Return HealthCheck.TLS IngressMTLS.VerifyDepth
+ Match.Action OIDC.ZoneSyncLeeway PolicySpec.APIKey PolicySpec.AccessControl PolicySpec.BasicAuth PolicySpec.EgressMTLS
+ PolicySpec.IngressMTLS PolicySpec.JWTAuth PolicySpec.OIDC PolicySpec.RateLimit PolicySpec.WAF ProxyRequestHeaders.Pass
+ RateLimit.Burst RateLimit.Condition RateLimit.Delay RateLimit.DryRun RateLimit.RejectCode RateLimitCondition.JWT Route.Action
+ Split.Action TLS.CertManager TLS.Redirect TLSRedirect.Code TransportServerHealthCheck.Match TransportServerSpec.Action
+ TransportServerSpec.SessionParameters TransportServerSpec.TLS TransportServerSpec.UpstreamParameters
+ TransportServerUpstream.HealthCheck Upstream.BackupPort Upstream.HealthCheck Upstream.Keepalive Upstream.MaxConns
+ Upstream.MaxFails Upstream.ProxyBuffering Upstream.ProxyBuffers Upstream.Queue Upstream.SessionCookie
+ UpstreamParameters.UDPRequests UpstreamParameters.UDPResponses VirtualServerSpec.Listener VirtualServerSpec.TLS
+ WAF.SecurityLog WAF.SecurityLogs[]*""".split()}
+INVENTORY.update({f: "random" for f in """ExternalDNS.Labels{} EgressMTLS.SessionReuse HealthCheck.GRPCStatus RateLimit.NoDelay
+ Upstream.Subselector{} TransportServerUpstream.BackupPort TransportServerUpstream.MaxConns TransportServerUpstream.MaxFails""".split()})
+
+
+def judge_inventory(run, inv):
+    if not inv:
+        raise C.TieBroken("the harness did not report the inventory of optional fields")
+    got = set(inv[0].get("ptr_fields") or [])
+    new, gone = sorted(got - set(INVENTORY)), sorted(set(INVENTORY) - got)
+    run.add_obligation(not new and not gone, "inventory of optional CRD fields (reflection over pkg/apis/configuration/v1) = the inventory the model was written against",
+                       "fields the model does not know: %s; fields that no longer exist: %s" % (new, gone))
+    run.cov["optional_crd_fields"] = {"total": len(got), "varied_by_shape_spaces": sum(1 for f in got if INVENTORY.get(f) == "shape"),
+                                      "random_stream_only": sorted(f for f in got if INVENTORY.get(f) == "random")}
 
 
 def shapes_cases_v(cases, tag):
@@ -209,8 +246,9 @@ def check(run):
     if rc != 0:
         raise C.TieBroken("c17 harness failed rc=%d: %s" % (rc, log[-1500:]))
     cases = C.read_jsonl(out)
-    shapes = [c for c in cases if c["fam"] != "rnd"]
+    shapes = [c for c in cases if c["fam"] not in ("rnd", "inv")]
     rnd = [c for c in cases if c["fam"] == "rnd"]
+    judge_inventory(run, [c for c in cases if c["fam"] == "inv"])
     counts, roundtrip = model_counts()
     run.add_obligation(roundtrip, "Shapes.Cases.codes_roundtrip", "a shape code does not decode back to its shape")
     rows = evaluate(shapes, run.tier)
@@ -233,6 +271,9 @@ def check(run):
         "built-in kinds: the API server's validation of Ingress/Service/Secret/EndpointSlice is transcribed (not executed): exactly one of service/resource per "
         "backend; pathType required; Exact/Prefix paths absolute; an http block has >= 1 path; a default backend or >= 1 rule; list items are never null",
         "panics that depend on values rather than shapes (crafted strings, regexp2 corner cases) are only searched by the random stream, not proved absent",
+        "custom resources: the theorems cover validation, arbitration and the generator's dereference sites of the modelled optional fields; the rest of "
+        "internal/configs/virtualserver.go / transportserver.go and the templates is exercised (every shape, real templates) but not modelled",
+        "App Protect / DoS resources (unstructured), IngressLink, ConfigMap parsing and the status updater are not driven",
         "the prior states are the four of Model.all_ctx (empty; a VirtualServer owning the host; master+minion on the host; a lone minion), all older than the object under test",
     ]
 
@@ -244,7 +285,7 @@ def replay(run, path):
     if rc != 0:
         raise C.TieBroken("c17 harness failed on replay: %s" % log[-1500:])
     cases = C.read_jsonl(out)
-    shapes = [c for c in cases if c["fam"] != "rnd"]
+    shapes = [c for c in cases if c["fam"] not in ("rnd", "inv")]
     rnd = [c for c in cases if c["fam"] == "rnd"]
     rows = evaluate(shapes, "replay")
     for c in shapes:
